@@ -34,6 +34,65 @@ def classify(exc, fam):
     return "Other"
 
 
+class LoopOverrun(BaseException):
+    """raised out of a library `while` loop whose iteration count left every bound that is linear in the input
+    (BaseException: no `except Exception` of the library can swallow it)"""
+
+
+def find_while_loops(pkg_dir, skip=("tests",)):
+    """code objects of the library that contain a `while` statement -> {code: {header line, ...}}.
+    Loop headers from the AST of each imported module's source; code objects from the module namespace."""
+    import ast
+    import types
+    out = {}
+    heads_by_file = {}
+    for name, mod in list(sys.modules.items()):
+        f = getattr(mod, "__file__", None)
+        if not f or not f.startswith(pkg_dir) or any(f"/{s_}/" in f for s_ in skip):
+            continue
+        if f not in heads_by_file:
+            try:
+                tree = ast.parse(open(f, encoding="utf-8").read())
+            except Exception:
+                heads_by_file[f] = set()
+                continue
+            heads_by_file[f] = {n.lineno for n in ast.walk(tree) if isinstance(n, ast.While)}
+        heads = heads_by_file[f]
+        if not heads:
+            continue
+        seen = set()
+
+        def walk_code(code):
+            if id(code) in seen:
+                return
+            seen.add(id(code))
+            if code.co_filename == f:
+                lines = {ln for _, _, ln in code.co_lines() if ln is not None}
+                own = set(lines & heads)
+                # lines of nested code objects belong to those
+                if own:
+                    out.setdefault(code, set()).update(own)
+            for c in code.co_consts:
+                if isinstance(c, types.CodeType):
+                    walk_code(c)
+
+        def walk_obj(o, depth=0):
+            if isinstance(o, types.FunctionType):
+                walk_code(o.__code__)
+            elif isinstance(o, (staticmethod, classmethod)):
+                walk_obj(o.__func__, depth)
+            elif isinstance(o, property):
+                for g in (o.fget, o.fset, o.fdel):
+                    if g is not None:
+                        walk_obj(g, depth)
+            elif isinstance(o, type) and depth < 3 and getattr(o, "__module__", None) == name:
+                for v_ in vars(o).values():
+                    walk_obj(v_, depth + 1)
+        for v_ in list(vars(mod).values()):
+            walk_obj(v_)
+    return out
+
+
 class _Fr:
     __slots__ = ("frame", "lf", "pending", "handling", "hline", "yields", "is_gen")
 
@@ -61,6 +120,10 @@ class Recorder:
         self.active = False
         self.inst = {}
         self.exc_detail = []     # (class name, repr) of every exception that arose in a layer frame
+        self.loops = {}          # code -> set of `while` header lines (progress monitor)
+        self.loop_count = {}
+        self.loop_bound = 1 << 62
+        self.loop_over = None
 
     # ------------------------------------------------------------------ lifecycle
     def install(self, line_events=False):
@@ -75,20 +138,23 @@ class Recorder:
         mon.register_callback(TOOL, E.LINE, self._line)
         loc = E.PY_START | E.PY_RETURN | E.PY_YIELD
         for code in self.layers:
-            mon.set_local_events(TOOL, code, loc | (E.LINE if line_events else 0))
+            mon.set_local_events(TOOL, code, loc | (E.LINE if line_events or code in self.loops else 0))
         for code in self.extra_line_codes:
-            mon.set_local_events(TOOL, code, E.LINE if line_events else 0)
+            mon.set_local_events(TOOL, code, E.LINE if line_events or code in self.loops else 0)
         mon.set_events(TOOL, E.RAISE | E.RERAISE | E.EXCEPTION_HANDLED | E.PY_UNWIND)
         self._line_events = line_events
+        for code in self.loops:
+            if code not in self.layers and code not in self.extra_line_codes:
+                mon.set_local_events(TOOL, code, E.LINE)
 
     def set_line_events(self, on):
         if on == self._line_events:
             return
         loc = E.PY_START | E.PY_RETURN | E.PY_YIELD
         for code in self.layers:
-            mon.set_local_events(TOOL, code, loc | (E.LINE if on else 0))
+            mon.set_local_events(TOOL, code, loc | (E.LINE if on or code in self.loops else 0))
         for code in self.extra_line_codes:
-            mon.set_local_events(TOOL, code, E.LINE if on else 0)
+            mon.set_local_events(TOOL, code, E.LINE if on or code in self.loops else 0)
         self._line_events = on
 
     def uninstall(self):
@@ -108,6 +174,8 @@ class Recorder:
         self.line_log = [] if dry else None
         self.exc_detail = []
         self.inst = {}
+        self.loop_count = {}
+        self.loop_over = None
         self.active = True
 
     def end(self):
@@ -276,6 +344,17 @@ class Recorder:
     def _line(self, code, line):
         if not self.active:
             return
+        heads = self.loops.get(code)
+        if heads is not None:
+            if line in heads:
+                k = (code, line)
+                n = self.loop_count.get(k, 0) + 1
+                self.loop_count[k] = n
+                if n > self.loop_bound:
+                    self.loop_over = (code.co_name, line, n)
+                    raise LoopOverrun(f"{code.co_name}:{line} iterated {n} times")
+            elif code not in self.layers and code not in self.extra_line_codes:
+                return mon.DISABLE
         lf = self.layers.get(code)
         if self.line_log is not None and lf is not None:
             i = self._find(sys._getframe(1))
